@@ -1,3 +1,4 @@
+import OutlineModel.Proofs.TieValidate
 import OutlineModel.Proofs.Config
 import OutlineModel.Gen.Wiring
 /-
@@ -115,5 +116,22 @@ example : (load exCanon exAddrOK exS1 exB (.bind 1)).2.1 = false ∧ (load exCan
 example : none ∈ plan exCanon exBad ∧ (load exCanon exAddrOK exS1 exBad .none).2.1 = false := by decide
 example : Consistent exS1 ∧ (load exCanon exAddrOK exS1 exB .none).2.1 = true := ⟨consistent_preserved exCanon exAddrOK Server.init exA .none consistent_init, by decide⟩
 example : ∀ m ∈ (load exCanon exAddrOK exS1 exB (.bind 1)).2.2, "tcp/:9001" ∈ m := by decide
+
+
+/-! ### The validation stage, about the code itself
+
+`Gen.Code.Config.Validate` is TRANSLATED from cmd/outline-ss-server/config.go on every run (extract/golean.go);
+`net.SplitHostPort` and `net.ParseIP` are parameters (any functions). -/
+
+/-- **code_validate**: the translated `Validate` never panics; for listener types `tcp` / `udp` it accepts exactly what the
+    model's `validate` accepts (every host an IP literal, listener keys pairwise distinct), whatever the parsers answer;
+    and a listener of any other type makes it fail -/
+theorem code_validate (parseIP : String → List UInt8) (split : String → String × String × Option String) (c : Gen.Code.Config) :
+    ((∀ l ∈ c.Services.flatMap (·.Listeners), Tie.Validate.typeOK l) →
+      (Gen.Code.Config.Validate parseIP split c).map (fun r => r.2.isNone) =
+        some (Config.validate (Tie.Validate.addrOK parseIP split) (Tie.Validate.absCfg c))) ∧
+    (∀ l ∈ c.Services.flatMap (·.Listeners), ¬ Tie.Validate.typeOK l →
+      ∃ e, Gen.Code.Config.Validate parseIP split c = some (c, some e)) :=
+  ⟨Tie.Validate.validate_tie parseIP split c, fun l hl ht => Tie.Validate.unsupported_type_rejected parseIP split c l hl ht⟩
 
 end OutlineModel.Props.C10
